@@ -13,3 +13,123 @@ package raft
 //@   ensures #maximal len(result) == len(ents) || sumsize(ents, len(result) + 1) > maxSize
 //@   loop 1 invariant #acc 1 <= limit && limit <= len(ents) && size == sumsize(ents, limit) && (limit > 1 ==> size <= maxSize)
 //@   loop 1 decreases len(ents) - limit
+
+//@ -- ------------------------------------------------------------------------------------------
+//@ -- entries and snapshots (protobuf getters are evaluated from their real bodies)
+
+//@ spec eterm(e *pb.Entry) uint64 := e.GetTerm()
+//@ spec eindex(e *pb.Entry) uint64 := e.GetIndex()
+//@ spec snapIndex(s *pb.Snapshot) uint64 := s.GetMetadata().GetIndex()
+//@ spec snapTerm(s *pb.Snapshot) uint64 := s.GetMetadata().GetTerm()
+
+//@ -- quantifiers range over absolute backing-array positions p (elem(s, p) with s.off <= p < s.off+len(s)): this gives
+//@ -- the solvers a trigger that matches every access to the array, independent of index arithmetic.
+//@ pred entriesFrom(ents []*pb.Entry, first int) := forall p int :: ents.off <= p && p < ents.off + len(ents) ==> elem(ents, p) != nil && eindex(elem(ents, p)) == first + (p - ents.off)
+//@ pred contiguous(ents []*pb.Entry) := entriesFrom(ents, eindex(ents[0]))
+//@ pred termsMonotone(ents []*pb.Entry) := forall p int, q int :: ents.off <= p && p <= q && q < ents.off + len(ents) ==> eterm(elem(ents, p)) <= eterm(elem(ents, q))
+
+//@ -- ------------------------------------------------------------------------------------------
+//@ -- log_unstable.go
+
+//@ pred wf_unstable(u *unstable) := u != nil && u.offset <= u.offsetInProgress && u.offsetInProgress <= u.offset + len(u.entries)
+//@     && u.offset + len(u.entries) < 9223372036854775808
+//@     && entriesFrom(u.entries, u.offset)
+//@     && termsMonotone(u.entries)
+//@     && (u.snapshot != nil ==> snapIndex(u.snapshot) < u.offset)
+//@     && (u.snapshotInProgress ==> u.snapshot != nil)
+
+//@ func raft.unstable.maybeFirstIndex [C18]
+//@   pure
+//@   requires wf_unstable(u)
+//@   ensures #view (u.snapshot != nil ==> result0 == snapIndex(u.snapshot) + 1 && result1) && (u.snapshot == nil ==> result0 == 0 && !result1)
+
+//@ func raft.unstable.maybeLastIndex [C18]
+//@   pure
+//@   requires wf_unstable(u)
+//@   ensures #view (len(u.entries) != 0 ==> result0 == u.offset + len(u.entries) - 1 && result1)
+//@        && (len(u.entries) == 0 && u.snapshot != nil ==> result0 == snapIndex(u.snapshot) && result1)
+//@        && (len(u.entries) == 0 && u.snapshot == nil ==> result0 == 0 && !result1)
+
+//@ func raft.unstable.maybeTerm [C18 C03]
+//@   pure
+//@   requires wf_unstable(u)
+//@   ensures #entries [C18 C03] i >= u.offset && i < u.offset + len(u.entries) ==> result0 == eterm(u.entries[i - u.offset]) && result1
+//@   ensures #snapshot [C18] i < u.offset && u.snapshot != nil && snapIndex(u.snapshot) == i ==> result0 == snapTerm(u.snapshot) && result1
+//@   ensures #otherwise [C18] !(i >= u.offset && i < u.offset + len(u.entries)) && !(i < u.offset && u.snapshot != nil && snapIndex(u.snapshot) == i) ==> result0 == 0 && !result1
+
+//@ func raft.unstable.nextEntries [C18 C05]
+//@   pure
+//@   requires wf_unstable(u)
+//@   ensures #suffix (u.offsetInProgress == u.offset + len(u.entries) ==> isnil(result))
+//@        && (u.offsetInProgress < u.offset + len(u.entries) ==> result.arr == u.entries.arr && result.off == u.entries.off + (u.offsetInProgress - u.offset)
+//@              && len(result) == len(u.entries) - (u.offsetInProgress - u.offset))
+
+//@ func raft.unstable.acceptInProgress [C18 C05]
+//@   requires wf_unstable(u)
+//@   frame raft.unstable: u
+//@   ensures #in-progress (len(u.entries) > 0 ==> u.offsetInProgress == u.offset + len(u.entries)) && (len(u.entries) == 0 ==> u.offsetInProgress == old(u.offsetInProgress))
+//@        && (u.snapshot != nil ==> u.snapshotInProgress) && (u.snapshot == nil ==> u.snapshotInProgress == old(u.snapshotInProgress))
+//@   ensures #view-kept u.entries == old(u.entries) && u.offset == old(u.offset) && u.snapshot == old(u.snapshot)
+//@   ensures #wf wf_unstable(u)
+
+//@ func raft.unstable.shrinkEntriesArray [C18]
+//@   requires u != nil
+//@   frame raft.unstable: u
+//@   ensures len(u.entries) == old(len(u.entries)) && (len(u.entries) > 0 ==> u.entries == old(u.entries)) && u.offset == old(u.offset)
+//@        && u.offsetInProgress == old(u.offsetInProgress) && u.snapshot == old(u.snapshot) && u.snapshotInProgress == old(u.snapshotInProgress)
+
+//@ func raft.unstable.stableTo [C18 C03 C05]
+//@   requires #wf wf_unstable(u)
+//@   frame raft.unstable: u
+//@   ensures #aba-ignored [C03 C18 C05] !(id.index >= old(u.offset) && id.index < old(u.offset) + old(len(u.entries)) && old(eterm(u.entries[id.index - u.offset])) == id.term)
+//@        ==> u.entries == old(u.entries) && u.offset == old(u.offset) && u.offsetInProgress == old(u.offsetInProgress)
+//@   ensures #stable-prefix-dropped [C03 C18 C05] (id.index >= old(u.offset) && id.index < old(u.offset) + old(len(u.entries)) && old(eterm(u.entries[id.index - u.offset])) == id.term)
+//@        ==> u.offset == id.index + 1 && len(u.entries) == old(len(u.entries)) - (id.index + 1 - old(u.offset))
+//@            && u.offsetInProgress == max(old(u.offsetInProgress), id.index + 1)
+//@            && (len(u.entries) > 0 ==> u.entries.arr == old(u.entries.arr) && u.entries.off == old(u.entries.off) + (id.index + 1 - old(u.offset)))
+//@   ensures #snapshot-kept u.snapshot == old(u.snapshot) && u.snapshotInProgress == old(u.snapshotInProgress)
+//@   ensures #wf wf_unstable(u)
+
+//@ func raft.unstable.stableSnapTo [C18 C09]
+//@   requires wf_unstable(u)
+//@   frame raft.unstable: u
+//@   ensures #cleared (old(u.snapshot) != nil && old(snapIndex(u.snapshot)) == i ==> u.snapshot == nil && !u.snapshotInProgress)
+//@        && (!(old(u.snapshot) != nil && old(snapIndex(u.snapshot)) == i) ==> u.snapshot == old(u.snapshot) && u.snapshotInProgress == old(u.snapshotInProgress))
+//@   ensures #entries-kept u.entries == old(u.entries) && u.offset == old(u.offset) && u.offsetInProgress == old(u.offsetInProgress)
+//@   ensures #wf wf_unstable(u)
+
+//@ func raft.unstable.restore [C18 C09]
+//@   requires u != nil && s != nil && snapIndex(s) < 9223372036854775807
+//@   frame raft.unstable: u
+//@   ensures #base [C09 C18] u.offset == old(snapIndex(s)) + 1 && u.offsetInProgress == u.offset && len(u.entries) == 0 && !u.snapshotInProgress
+//@   ensures #snapshot [C09] u.snapshot != nil && fresh(u.snapshot) && snapIndex(u.snapshot) == old(snapIndex(s)) && snapTerm(u.snapshot) == old(snapTerm(s))
+//@   ensures #wf wf_unstable(u)
+
+//@ func raft.unstable.mustCheckOutOfBounds [C18 C14]
+//@   pure
+//@   requires #wf wf_unstable(u)
+//@   requires #bounds [C14] lo <= hi && u.offset <= lo && hi <= u.offset + len(u.entries)
+
+//@ func raft.unstable.slice [C18 C14]
+//@   pure
+//@   requires #wf wf_unstable(u)
+//@   requires #bounds [C14] lo <= hi && u.offset <= lo && hi <= u.offset + len(u.entries)
+//@   ensures #window [C18] result.arr == u.entries.arr && result.off == u.entries.off + (lo - u.offset) && len(result) == hi - lo && cap(result) == hi - lo
+
+//@ func raft.unstable.truncateAndAppend [C18 C03 C01]
+//@   requires #wf wf_unstable(u)
+//@   requires #ents len(ents) > 0 && contiguous(ents) && termsMonotone(ents) && eindex(ents[0]) + len(ents) < 9223372036854775808
+//@   requires #no-gap [C14] eindex(ents[0]) <= u.offset + len(u.entries)
+//@   requires #seam eindex(ents[0]) > u.offset ==> eterm(u.entries[eindex(ents[0]) - 1 - u.offset]) <= eterm(ents[0])
+//@   requires #above-snapshot u.snapshot != nil ==> eindex(ents[0]) > snapIndex(u.snapshot)
+//@   frame raft.unstable: u
+//@   ensures #offset [C18 C03] u.offset == min(old(u.offset), old(eindex(ents[0])))
+//@   ensures #in-progress [C18 C05] u.offsetInProgress == (old(eindex(ents[0])) <= old(u.offset) ? old(eindex(ents[0])) : min(old(u.offsetInProgress), old(eindex(ents[0]))))
+//@   ensures #length [C18 C03] len(u.entries) == (old(eindex(ents[0])) <= old(u.offset) ? 0 : old(eindex(ents[0])) - old(u.offset)) + len(ents)
+//@   ensures #kept-prefix [C18 C03 C01] forall p int, q int :: u.entries.off <= p && p < u.entries.off + (old(eindex(ents[0])) - old(u.offset))
+//@             && q == old(u.entries.off) + (p - u.entries.off) ==> elem(u.entries, p) == old(elem(u.entries, q))
+//@   ensures #appended [C18 C03] forall p int, k int, q int :: k == (old(eindex(ents[0])) <= old(u.offset) ? 0 : old(eindex(ents[0])) - old(u.offset))
+//@             && u.entries.off + k <= p && p < u.entries.off + k + len(ents) && q == ents.off + (p - u.entries.off - k) ==> elem(u.entries, p) == old(elem(ents, q))
+//@   ensures #no-overwrite [C18] forall p int :: old(u.entries.off) <= p && p < old(u.entries.off) + old(len(u.entries)) ==> elem(old(u.entries), p) == old(elem(u.entries, p))
+//@   ensures #snapshot-kept u.snapshot == old(u.snapshot) && u.snapshotInProgress == old(u.snapshotInProgress)
+//@   ensures #wf wf_unstable(u)
